@@ -237,7 +237,7 @@ def class_source(c):
     bases = list(c['bases'])
     kind = c['kind']
     if kind == 'enum' and not bases:
-        bases = ['enum.Enum']
+        bases = ['str', 'enum.Enum'] if c.get('str_mixin') else ['enum.Enum']
     if kind == 'str' and not bases:
         bases = ['str']
     if kind == 'userstring' and not bases:
@@ -253,7 +253,7 @@ def class_source(c):
     body = []
     if kind == 'enum':
         for i, m in enumerate(c['members']):
-            body.append('    {} = {}'.format(m, i + 1))
+            body.append('    {} = {}'.format(m, repr('value{}'.format(i + 1)) if c.get('str_mixin') else i + 1))
     elif kind in ('str', 'userstring', 'yatimlstring'):
         ir = c.get('init_raises')
         if kind == 'yatimlstring':
@@ -284,10 +284,16 @@ def class_source(c):
                 if p.get('default', NODEFAULT) is not NODEFAULT:
                     s += ' = ' + lit(p['default'])
                 params.append(s)
+            names = [p['name'] for p in c['params']]
             if c.get('extra'):
-                params.append('_yatiml_extra: Optional[OrderedDict] = None')
+                pos = len(params)
+                if c.get('extra_early'):
+                    # before the first parameter that has a default (it has a default itself)
+                    pos = min([i for i, p in enumerate(c['params']) if p.get('default', NODEFAULT) is not NODEFAULT]
+                              + [len(params)])
+                params.insert(pos, '_yatiml_extra: Optional[OrderedDict] = None')
+                names.insert(pos, '_yatiml_extra')
             body.append('    def __init__({}) -> None:'.format(', '.join(['self'] + params)))
-            names = [p['name'] for p in c['params']] + (['_yatiml_extra'] if c.get('extra') else [])
             body.append("        _LOG.append(('init', {!r}, _snap(OrderedDict([{}]))))".format(
                 c['name'], ', '.join('({!r}, {})'.format(n, n) for n in names)))
             ir = c.get('init_raises')
